@@ -551,6 +551,14 @@ def ro_foreign_program(rng, pid, ft):
     """a volume written by someone else (read-only, hidden, system and archive attributes in every combination, stamps of other days) and a
     session of non-mutating calls on a later day: whatever the attributes of an entry say, reading it writes nothing (C13)"""
     vol, cs, oem = foreign_volume(rng, ft)
+    # one volume in three is what a crash leaves: marked dirty, and the size field of some files says more than their chains hold
+    # (read-only use writes nothing on such a volume either; nothing else is demanded of it)
+    torn = rng.random() < 0.34
+    if torn:
+        vol["status"] = 1
+        for e in vol["tree"]:
+            if e.get("kind") == "f" and e.get("size", 0) > 0 and rng.random() < 0.6:
+                e["recsize"] = e["size"] + rng.choice([1, cs, 2 * cs + 5])
     known = _names_of(vol["tree"])
     files = [p for p, k in known if k == "f"]
     dirs = [p for p, k in known if k == "d"]
@@ -558,6 +566,7 @@ def ro_foreign_program(rng, pid, ft):
     for i, fl in enumerate(rng.sample(files, min(len(files), 6))):
         h = "r%d" % i
         ops += [{"op": "open_file", "at": "", "path": fl, "as": h}, {"op": "read", "h": h, "len": rng.choice([1, cs, 3 * cs])},
+                {"op": "seek", "h": h, "from": "end", "off": rng.choice([0, -1])}, {"op": "seek", "h": h, "from": "start", "off": rng.choice([cs, 2 * cs + 1, 5 * cs])},
                 {"op": "seek", "h": h, "from": rng.choice(["start", "end"]), "off": 0}, {"op": "read_all", "h": h, "len": 2 * cs}]
         if rng.random() < 0.5:
             ops.append({"op": "extents", "h": h})
@@ -691,6 +700,12 @@ def crash_program(rng, pid, cfg, cs, n_files=2, n_after=12):
                 # the storage's own flush fails, with an ordinary or with a transient ("interrupted", EINTR-like) error
                 prog["fault"] = {"at": i, "flush": True, "intr": rng.random() < 0.6, "continue": True}
             prog["origin"] = "random:crash+fault"
+    elif rng.random() < 0.35:
+        # one device call of a data write is interrupted (EINTR-like): write_all repeats the piece, nothing is lost or written twice
+        idx = [i for i, o in enumerate(ops) if o["op"] == "write_all" and o.get("len", 0) >= cs]
+        if idx:
+            prog["fault"] = {"at": rng.choice(idx), "k": rng.randrange(1, 14), "intr": True, "continue": True}
+            prog["origin"] = "random:crash+intr"
     return prog
 
 
@@ -1148,7 +1163,11 @@ def alias_move_program(rng, pid, cfg, n=8):
     rng.shuffle(moved)
     for j, a in enumerate(moved):
         r = rng.random()
-        if r < 0.6:
+        if r < 0.3:
+            # a new name in the other directory, whose existing entries share its alias prefix (the alias must be chosen against the
+            # entries of the directory it arrives in)
+            ops.append({"op": "rename", "at": "", "src": "in/" + a, "to": "", "dst": "out/" + a.replace("draft", "moved")})
+        elif r < 0.6:
             ops.append({"op": "rename", "at": "", "src": "in/" + a, "to": "", "dst": "out/" + a})            # same name, other directory
         elif r < 0.8:
             ops.append({"op": "rename", "at": "", "src": "in/" + a, "to": "", "dst": "out/" + a.upper()})    # other spelling
